@@ -17,12 +17,18 @@ package containers
 //@
 //@ func (*SliceSet[T]).Add
 //@   props C09
-//@   requires [set] set != nil && noDup(set) && set.items.blk != set.blk
+//@   requires [set] set != nil
+//@   requires [set-nodup] noDup(set)
+//@   requires [set-separate] set.items.blk != set.blk
+//@   modifies set.items, elems(set.items)
+//@   ensures [array-own] set.items.blk == old(set.items.blk) || fresh(set.items)
 //@   ensures [no-duplicates] noDup(set)
 //@   ensures [added-iff-absent] result <==> !old(has(set, item))
 //@   ensures [present-afterwards] has(set, item)
 //@   ensures [size] len(set.items) == old(len(set.items)) + ite(result, 1, 0)
 //@   ensures [others-kept] forall k int :: 0 <= k && k < old(len(set.items)) ==> set.items[k] == old(set.items[k])
+//@   ensures [appended] result ==> set.items[old(len(set.items))] == item
+//@   ensures [separate] set.items.blk != set.blk
 //@
 //@ func (*SliceSet[T]).Contains
 //@   props C09
@@ -32,11 +38,17 @@ package containers
 //@
 //@ func (*SliceSet[T]).Remove
 //@   props C09
-//@   requires [set] set != nil && noDup(set) && set.items.blk != set.blk
+//@   requires [set] set != nil
+//@   requires [set-nodup] noDup(set)
+//@   requires [set-separate] set.items.blk != set.blk
+//@   modifies set.items, elems(set.items)
+//@   ensures [array-own] set.items.blk == old(set.items.blk) || fresh(set.items)
 //@   ensures [no-duplicates] noDup(set)
 //@   ensures [removed-iff-present] found <==> old(has(set, item))
 //@   ensures [absent-afterwards] !has(set, item)
 //@   ensures [size] len(set.items) == old(len(set.items)) - ite(found, 1, 0)
+//@   ensures [remaining-were-there] forall k int {set.items[k]} :: 0 <= k && k < len(set.items) ==> (exists m int :: 0 <= m && m < old(len(set.items)) && set.items[k] == old(set.items[m]))
+//@   ensures [separate] set.items.blk != set.blk
 //@
 //@ func (*SliceSet[T]).Len
 //@   props C09
@@ -52,18 +64,27 @@ package containers
 //@
 //@ func (*PriorityQueue[K, V]).Push
 //@   props C09
-//@   requires [queue] queue != nil && uniqKeys(queue) && queue.items.blk != queue.blk
+//@   requires [queue] queue != nil
+//@   requires [queue-uniq] uniqKeys(queue)
+//@   requires [queue-separate] queue.items.blk != queue.blk
+//@   modifies queue.items, elems(queue.items)
+//@   ensures [array-own] queue.items.blk == old(queue.items.blk) || fresh(queue.items)
 //@   at IndexFunc #1
 //@     assume_result [index-by-key] -1 <= result && result < len(queue.items) && (result >= 0 ==> queue.items[result].Key == key) &&
 //@       (result == -1 ==> (forall k int :: 0 <= k && k < len(queue.items) ==> queue.items[k].Key != key))
 //@   at BinarySearchFunc #1
 //@     assert [still-unique] uniqKeys(queue)
 //@     assert [key-absent-before-insert] forall k int :: 0 <= k && k < len(queue.items) ==> queue.items[k].Key != key
+//@     assert [keys-before-insert-were-there] forall j int {queue.items[j]} :: 0 <= j && j < len(queue.items) ==>
+//@       (exists m int :: 0 <= m && m < old(len(queue.items)) && queue.items[j].Key == old(queue.items[m].Key))
 //@     assume_result [binary-search] 0 <= result0 && result0 <= len(queue.items)
 //@   ensures [dedup-by-key; using still-unique, key-absent-before-insert, insert-elements, insert-shape, binary-search] uniqKeys(queue)
 //@   ensures [queued] hasKey(queue, key)
 //@   ensures [added-iff-new] result <==> !old(hasKey(queue, key))
 //@   ensures [size] len(queue.items) == old(len(queue.items)) + ite(result, 1, 0)
+//@   ensures [keys-were-there-or-pushed; using keys-before-insert-were-there, insert-elements, insert-shape, binary-search] forall j int {queue.items[j]} :: 0 <= j && j < len(queue.items) ==> (queue.items[j].Key == key ||
+//@     (exists m int :: 0 <= m && m < old(len(queue.items)) && queue.items[j].Key == old(queue.items[m].Key)))
+//@   ensures [separate] queue.items.blk != queue.blk
 //@
 //@ func (*PriorityQueue[K, V]).Push$1
 //@   props C09
@@ -73,12 +94,20 @@ package containers
 //@ func (*PriorityQueue[K, V]).Peek
 //@   props C09
 //@   requires [queue] queue != nil
+//@   pure
 //@   ensures [empty-queue-yields-nothing] len(queue.items) == 0 ==> !key.present && !value.present && nextDelay == 0
+//@   ensures [head] key.present ==> len(queue.items) > 0 && key.value == queue.items[0].Key
 //@
 //@ func (*PriorityQueue[K, V]).Pop
 //@   props C09
-//@   requires [queue] queue != nil && len(queue.items) > 0 && uniqKeys(queue) && queue.items.blk != queue.blk
+//@   requires [queue] queue != nil && len(queue.items) > 0
+//@   requires [queue-uniq] uniqKeys(queue)
+//@   requires [queue-separate] queue.items.blk != queue.blk
+//@   modifies queue.items, elems(queue.items)
+//@   ensures [array-own] queue.items.blk == old(queue.items.blk) || fresh(queue.items)
 //@   ensures [popped] len(queue.items) == old(len(queue.items)) - 1 && uniqKeys(queue)
+//@   ensures [rest-kept] forall k int {queue.items[k]} :: 0 <= k && k < len(queue.items) ==> (exists m int :: 1 <= m && m < old(len(queue.items)) && queue.items[k].Key == old(queue.items[m].Key))
+//@   ensures [separate] queue.items.blk != queue.blk
 //@
 //@ func (*PriorityQueue[K, V]).Len
 //@   props C09
